@@ -257,8 +257,21 @@ def generate(ctx, n_ops):
                 line = "X\tabs\tq%d" % a
             else:
                 line = "X\troot\tq%d\tn:%d" % (a, ctx.small_int(-3, 3))
-        elif r < 0.96:
+        elif r < 0.93:
             line = "X\t%s\tq%d" % (rng.choice(["neg", "pos", "abs"]), a)
+        elif r < 0.96:
+            # rendering as a ratio interns the numerator / denominator units: later arithmetic
+            # that denotes the same units must still obey dimensional analysis (history)
+            for _ in range(10):
+                ub = ctx.pick_unit()
+                if ctx.compatible(ua, ub):
+                    break
+            res = yield "U\t%s\tu%d\tu%d" % (rng.choice(["div", "mul"]), ua, ub)
+            emitted += 1
+            if res.startswith("ok\tu"):
+                line = "X\tufmt\t%s" % res.split("\t")[1]
+            else:
+                line = "X\tufmt\tu%d" % ua
         else:
             # quantity vs number comparisons / additions (TypeError or False)
             line = "X\t%s\tq%d\t%s" % (rng.choice(["add", "sub", "eq", "lt"]), a, mag_tok(rng))
